@@ -337,6 +337,8 @@ def magnitude_only(ctx):
             for i in uses(P):
                 if i.op == 'fcmp' and any(is_zero(o) for o in i.ops):
                     continue
+                if i.op == 'fcmp' and (i.x.get('pred') in ('uno', 'ord') or (len(i.ops) == 2 and all(o.k == 'reg' and o.v == P for o in i.ops))):
+                    continue      # a NaN test (m != m, isnan): says nothing about the sign
                 if i.op == 'fneg':
                     negs.append(i)
                     continue
